@@ -280,4 +280,42 @@ theorem count_transformCellMap (M : M3) (n i : Nat) (hi : i < n) :
         simp; omega
       rw [this]; simp
 
+/-! ### covering, and the converse of the alignment -/
+
+/-- Every integer vector is equivalent modulo `M ℤ³` to one of the enumerated lattice points. -/
+theorem latticePoints_cover (M : M3) (hdet : M.det ≠ 0) (v : Z3) :
+    ∃ n ∈ latticePoints M, ∃ u : Z3, v.sub n = M.apply u := by
+  have hd : (toM (toIMat M)).det ≠ 0 := by rw [toM_toIMat_det]; exact hdet
+  obtain ⟨f, hf, z, hz⟩ := (C15.supercell_cosets (toIMat M) hd _ (snf_l_mul_linv M)).2.2 (vec v)
+  obtain ⟨f', rfl⟩ := exists_vec f
+  obtain ⟨z', rfl⟩ := exists_vec z
+  rw [Fintype.mem_piFinset] at hf
+  have h0 := Finset.mem_Ico.mp (hf 0)
+  have h1 := Finset.mem_Ico.mp (hf 1)
+  have h2 := Finset.mem_Ico.mp (hf 2)
+  simp only [vec, Matrix.cons_val_zero, Matrix.cons_val_one, Matrix.cons_val_two, Matrix.head_cons,
+    Matrix.tail_cons] at h0 h1 h2
+  refine ⟨(unimodInv (ofIMat (snf (toIMat M)).l)).apply f', ?_, z', ?_⟩
+  · unfold latticePoints
+    simp only
+    refine List.mem_map.mpr ⟨f', ?_, rfl⟩
+    rw [mem_boxPoints]
+    omega
+  · apply vec_injective
+    rw [← vec_sub, ← mulVec_vec, ← mulVec_vec]
+    exact hz
+
+/-- Converse of `aligned_getElem?`: every (input site, lattice point) pair is a site of the new cell. -/
+theorem exists_site (M : M3) (pos : List Q3) (i : Nat) (x : Q3) (hx : pos[i]? = some x) (n : Z3)
+    (hn : n ∈ latticePoints M) :
+    ∃ k : Nat, (transformCellPos M pos)[k]? = some (newPosition M x n) ∧ (transformCellMap M pos.length)[k]? = some i := by
+  have hm : (newPosition M x n, i) ∈ (transformCellPos M pos).zip (transformCellMap M pos.length) := by
+    unfold transformCellPos transformCellMap
+    rw [List.range_eq_range', zip_aligned]
+    simp only [List.mem_flatMap, List.mem_map, Prod.mk.injEq]
+    exact ⟨(x, i), List.mem_zipIdx_iff_getElem?.mpr (by simpa using hx), n, hn, rfl, rfl⟩
+  obtain ⟨k, hk⟩ := List.mem_iff_getElem?.mp hm
+  rw [List.getElem?_zip_eq_some] at hk
+  exact ⟨k, hk.1, hk.2⟩
+
 end Moyo.StageStd
